@@ -122,12 +122,8 @@ Record pre := mkPre {
   p_used : N;                    (* parity_used_size after the scan *)
   p_parity_access : list bool;   (* per level: parity_create succeeds (sync, fix): creates the file when absent *)
   p_parity_open : list bool;     (* per level: parity_open succeeds (scrub; check and excluded levels of fix go on without) *)
-  p_parity_blocks : list N;      (* per level: what parity_size() reports / block size: the split sizes RECORDED in the content
-                                    file when it has them ('Q' records: version-3 content, written when the hash size is
-                                    not 16 or some parity is split), else the size found on disk (absent = 0);
-                                    parity.c:177-240: split->size = parity->split_map[s].size, replaced by st_size only
-                                    when PARITY_SIZE_INVALID *)
-  p_parity_disk_blocks : list N; (* per level: size really on disk / block size *)
+  p_parity_blocks : list N;      (* per level: parity_valid_size() / block size (parity.c, after fix 03a455c): the parity really
+                                    present in the files -- see `valid_size` below; absent file = 0 *)
   p_parity_resize : list bool;   (* per level: size on disk <> blockmax * block size: parity_chsize changes the file *)
   p_parity_modified : list bool; (* per level: parity_chsize reports is_modified (resulting size <> size recorded in the
                                     content file; a 'P' record -- single-file parity -- records no size: always modified) *)
@@ -191,8 +187,21 @@ Fixpoint minl (l : list N) : N :=
   match l with [] => 0 | [x] => x | x :: t => N.min x (minl t) end.
 (* sync.c:1487-1499: file_paritymax < used_paritymax *)
 Definition short_parity (p : pre) : bool := N.ltb (minl (p_parity_blocks p)) (p_used p).
-(* what the property means: a parity FILE is smaller than the recorded state requires *)
-Definition short_parity_disk (p : pre) : bool := N.ltb (minl (p_parity_disk_blocks p)) (p_used p).
+
+(* parity.c parity_valid_size: the splits of one level in order, each with the size recorded in the content file (None when the
+   content file records none: 'P' record, then parity_create takes the size of the file) and the size of the file on disk:
+   sum of the split sizes up to the first split whose file is shorter than its size, then that file's real size *)
+Fixpoint valid_size (sp : list (option N * N)) : N :=
+  match sp with
+  | [] => 0
+  | (rec, disk) :: t =>
+      let size := match rec with Some r => r | None => disk end in
+      if N.ltb disk size then disk else size + valid_size t
+  end.
+Definition valid_blocks (bs : N) (sp : list (option N * N)) : N := valid_size sp / bs.
+(* what parity_size() reports (the rule before 03a455c): the recorded sizes, whatever is on disk *)
+Fixpoint recorded_size (sp : list (option N * N)) : N :=
+  match sp with [] => 0 | (rec, disk) :: t => match rec with Some r => r | None => disk end + recorded_size t end.
 
 Definition mismatch_trigger (p : pre) : bool := p_bs_mismatch p || p_hs_mismatch p.
 Definition uuid_trigger (o : opts) (p : pre) : bool := negb (o_force_uuid o) && N.ltb (p_level p) (p_uuid_changes p).
